@@ -314,7 +314,7 @@ def run_thermal(spec):
 
 
 SUBCHECKS = [
-    Sub("random_displacements", run=run_random, strategy=rd_specs, examples={"quick": 500, "thorough": 15000}, shards={"quick": 8, "thorough": 16},
+    Sub("random_displacements", run=run_random, strategy=rd_specs, examples={"quick": 500, "thorough": 15000}, shards={"quick": 16, "thorough": 16},
         budget={"quick": 120, "thorough": 2400},
         what="exact covariance of the sampler (class, API, API after a history) == canonical covariance; uu, uu_inv, run_d2f"),
     Sub("thermal_displacements", run=run_thermal, strategy=td_specs, examples={"quick": 250, "thorough": 8000}, shards={"quick": 8, "thorough": 16},
